@@ -206,6 +206,13 @@ def evaluate__map_entry(self: XPathFunction, context: ta.ContextType = None) -> 
     return XPathMap(self.parser, items=[(key, value)])
 
 
+def concatenate_values(value1: Any, value2: Any) -> list[Any]:
+    """Sequence concatenation of two values, building a new list."""
+    items1 = value1 if isinstance(value1, list) else [value1]
+    items2 = value2 if isinstance(value2, list) else [value2]
+    return items1 + items2
+
+
 @method(function('merge', prefix='map', nargs=(1, 2),
                  sequence_types=('map(*)*', 'map(*)', 'map(*)')))
 def evaluate__map_merge(self: XPathFunction, context: ta.ContextType = None) -> XPathMap:
@@ -237,10 +244,7 @@ def evaluate__map_merge(self: XPathFunction, context: ta.ContextType = None) -> 
                     items.pop(k1)  # remove before to replace the key
                     items[k1] = v
                 elif duplicates == 'combine':
-                    try:
-                        items[k1].append(v)
-                    except AttributeError:
-                        items[k1] = [items[k1], v]
+                    items[k1] = concatenate_values(items[k1], v)
                 continue
 
             # TODO: too slow. An alternative idea is to couple with the type
@@ -253,10 +257,7 @@ def evaluate__map_merge(self: XPathFunction, context: ta.ContextType = None) -> 
                         items.pop(k2)  # remove before to replace the key
                         items[k1] = v
                     elif duplicates == 'combine':
-                        try:
-                            items[k2].append(v)
-                        except AttributeError:
-                            items[k2] = [items[k2], v]
+                        items[k2] = concatenate_values(items[k2], v)
                     break
             else:
                 items[k1] = v
